@@ -577,6 +577,17 @@ Section Spec.
     check_topology_level ++ flat_map check_old_obj (t_objs before) ++ flat_map check_new_obj (t_objs after).
 End Spec.
 
+(* A Group with attr->group.dont_merge protects its level from the structural merge (same
+   rule as at load time): if it was there before the restrict it is still there afterwards
+   unless the removal rule itself applies to it (nothing left below it).  [dm] = dump-local
+   ids, in [before], of the Groups with dont_merge set (the dump record does not carry the
+   attribute, the driver reads it from the dump text). *)
+Definition dont_merge_check (before after : dump) (Sx : bset) (flags : N) (dm : list N) : list viol :=
+  flat_map (fun o =>
+              if memN (o_id o) dm && (o_type o =? HWLOC_OBJ_GROUP)
+              then chk (present after o || rule_applies before after Sx flags o) "dont-merge-group-vanished" (gpN o)
+              else []) (t_objs before).
+
 (* ------------------------------------------------------------------ *)
 (* return value: when EINVAL must / may be returned                    *)
 
